@@ -778,6 +778,126 @@ class C16(SeqCheck):
         return any(x.startswith("1") for x in o) and any(x.startswith("0") for x in o)
 
 
-REGISTRY = {"C01": C01, "C02": C02, "C03": C03, "C04": C04, "C05": C05, "C06": C06, "C07": C07, "C08": C08, "C09": C09, "C10": C10, "C11": C11, "C12": C12, "C13": C13, "C14": C14, "C15": C15, "C16": C16, "C17": C17, "C18": C18, "C20": C20}
+class C19:
+    """C19: lock-discipline proof over the access table regenerated from the working tree; dynamic race detection as the
+    failing-input search."""
+    pid = "C19"
+    design_ref = "4 (C19)"
+    technique = ("Coq proof (lock discipline excludes conflicting simultaneous accesses on an abstract machine of threads and (RW) mutexes; the "
+                 "discipline is evaluated inside Coq on the access table) with the table regenerated from the Go sources by a translator on every "
+                 "run; concurrent workloads under the Go race detector as failing-input search")
+    level_text = ("Translator route: tools/raceaudit type-checks packetio, deadline, dpipe, udp and vnet from the working tree and lists every access "
+                  "to a field of a mutex-owning struct and to package-level variables with the mutexes of the same object held there (flow through "
+                  "each function, entry lock sets by fixpoint over call sites, deferred unlocks, atomics, objects under construction, fields confined "
+                  "to the single goroutine started by a constructor). Coq re-checks on every run that every shared variable is never written after "
+                  "publication or has one mutex held at every access, exclusively for writes (C19_discipline, by vm_compute on the regenerated table), "
+                  "and proves that this discipline admits no reachable state in which two threads are about to make conflicting accesses "
+                  "(C19_discipline_excludes_conflicts: any number of threads, locks, variables, any programs). When the discipline fails, the "
+                  "violating accesses are listed and concurrent workloads run under the race detector to exhibit the race")
+    level_note = ("partial: the translator is a trusted, approximate static analysis (lock sets per syntactic mutex expression; element writes "
+                  "attributed to the field; aliasing through slices, maps and pointers handed out is not followed; channel, WaitGroup and Once "
+                  "ordering is not modelled - variables protected only by those would be reported, none is on this tree); four functions are "
+                  "declared set-up-only (tools/raceaudit/run.sh, justified in DESIGN.md); the theorem is about the abstract machine, whose link "
+                  "to the Go memory model (mutex operations as the only synchronisation) is an assumption; netctx, connctx, replaydetector, xor "
+                  "and test/ are outside the anchored files")
+    rule = ("access table of all non-test files of packetio, deadline, dpipe, udp, vnet; workloads: packet buffer (writers, readers with deadlines, "
+            "limits, Close), deadline (short timers against Set/Err/Done/Deadline), dpipe both ends, vnet (networks built in parallel, traffic both "
+            "ways, token bucket filter reconfigured under traffic), UDP listener over loopback (accept/read/write/close concurrently)")
+    trusted = ["tools/raceaudit (translator from Go sources to the access table; go/types source importer)",
+               "the Go race detector (ThreadSanitizer runtime) for the failing-input search only"]
+    assumptions = ["mutex Lock/Unlock/RLock/RUnlock are the synchronisation considered; topology construction (AddNet/AddRouter) happens before traffic",
+                   "client programs use the exported API (entry points hold no lock)"]
+
+    def main(self, argv):
+        import argparse
+        ap = argparse.ArgumentParser()
+        ap.add_argument("--tier", default=os.environ.get("VERIF_TIER", "quick"))
+        ap.add_argument("--replay")
+        ap.add_argument("--seed", default=os.environ.get("VERIF_SEED", "1"))
+        a = ap.parse_args(argv)
+        tier = "thorough" if a.tier == "thorough" else "quick"
+        t0 = time.time()
+        wd = os.path.join(WORK, "C19")
+        shutil.rmtree(wd, ignore_errors=True)
+        os.makedirs(wd, exist_ok=True)
+        os.makedirs(os.path.join(VERIF, "replays"), exist_ok=True)
+        table = os.path.join(COQ, "theories/Race/Table.v")
+        r = sh(["sh", os.path.join(VERIF, "tools/raceaudit/run.sh"), table])
+        violations = []
+        n_access = 0
+        static_ok = False
+        coq = dict(obligations=3, discharged=0, closed=0, axioms=[], ok=False, theorems=[])
+        viol_text = ""
+        if r.returncode != 0:
+            rp = os.path.join(VERIF, "replays", "C19-translator.txt")
+            open(rp, "w").write("tools/raceaudit could not translate the working tree (does it compile?)\n" + r.stdout[-3000:])
+            violations.append((rp, True))
+        else:
+            n_access = open(table).read().count("mk_access")
+            coq = ensure_coq(["C19"])["C19"]
+            static_ok = coq["ok"]
+            if not static_ok:
+                # which accesses break the discipline?
+                q = os.path.join(wd, "viol.v")
+                open(q, "w").write("From Coq Require Import String List. Import ListNotations.\n"
+                                   "From Tx Require Import Race.Lockset Race.Table.\n"
+                                   "Definition V := Eval vm_compute in map (fun a => (a_owner a, a_field a, a_fn a, a_pos a, a_write a, a_held a)) (violations table).\n"
+                                   "Print V.\n")
+                sh(["make", "-f", "Makefile.coq", "theories/Race/Table.vo"], cwd=COQ)
+                rr = sh(["coqc", "-Q", "theories", "Tx", q], cwd=COQ)
+                viol_text = rr.stdout[:6000]
+        # failing-input search / supporting evidence: workloads under the race detector
+        env = dict(os.environ, GOFLAGS="-mod=mod", GOPROXY="off", GOSUMDB="off", GOTOOLCHAIN="local")
+        hb = os.path.join(BIN, "h_race")
+        rb = sh([GO, "test", "-race", "-c", "-o", hb, "./race/"], cwd=os.path.join(VERIF, "harness"), env=env)
+        runs = 0
+        race_report = ""
+        if rb.returncode != 0:
+            log(rb.stdout[-2000:])
+            rp = os.path.join(VERIF, "replays", "C19-build.txt")
+            open(rp, "w").write("race workloads do not build against the working tree\n" + rb.stdout[-3000:])
+            violations.append((rp, True))
+        else:
+            want = (30 if tier == "thorough" else 3) if static_ok else 40
+            for i in range(want):
+                rr = sh(["timeout", "-s", "KILL", "300", hb, "-test.count=1"], env=dict(env, GORACE="halt_on_error=0"))
+                runs += 1
+                if "DATA RACE" in rr.stdout:
+                    race_report = rr.stdout
+                    break
+                if rr.returncode != 0:
+                    race_report = rr.stdout
+                    break
+        if race_report:
+            rp = os.path.join(VERIF, "replays", "C19-race.txt")
+            with open(rp, "w") as f:
+                f.write("// C19: the Go race detector reports conflicting unsynchronised accesses in the concurrent workloads of harness/race\n")
+                f.write("// replay: cd /verif/harness && go1.26.8 test -race -count=5 ./race/\n")
+                if viol_text:
+                    f.write("// accesses that break the lock discipline (owner, field, function, position, write?, locks held):\n" + viol_text + "\n")
+                f.write(race_report[:12000])
+            violations.append((rp, False))
+        elif not static_ok and r.returncode == 0:
+            rp = os.path.join(VERIF, "replays", "C19-discipline.txt")
+            with open(rp, "w") as f:
+                f.write("// theorem C19_discipline (check table = true) no longer holds for the access table regenerated from the working tree\n")
+                f.write("// accesses that break the lock discipline (owner, field, function, position, write?, locks held):\n" + viol_text + "\n")
+                f.write("// the race workloads (%d runs under the race detector) exhibited no race\n" % runs)
+            violations.append((rp, True))
+        for rp, nofail in violations:
+            log("VIOLATION property=C19 replay=%s%s" % (rp, " no-failing-input-found" if nofail else ""))
+        cov = dict(obligations=coq["obligations"], discharged=coq["discharged"], theorems=coq["theorems"],
+                   checker_cmd="tools/raceaudit/run.sh (regenerates Race/Table.v), make theories/Properties/C19.vo (coqc 8.16.1, vm_compute), Print Assumptions captured",
+                   trusted_base=TRUSTED_COMMON + self.trusted, print_assumptions_closed=coq["closed"], axioms=coq["axioms"],
+                   accesses_in_table=n_access, race_detector_runs=runs, rule=self.rule,
+                   evaluations=n_access, distinct_nontrivial=n_access,
+                   samples=[l.strip() for l in open(table).read().split("\n")[5:8]] if os.path.exists(table) else ["(no table)"])
+        write_evidence("C19", tier, int(a.seed), cov, self.assumptions, time.time() - t0, len(violations))
+        log("C19: %d accesses in the regenerated table, discipline theorem %s, %d race-detector runs, %.1fs"
+            % (n_access, "holds" if static_ok else "FAILS", runs, time.time() - t0))
+        return 1 if violations else 0
+
+
+REGISTRY = {"C19": C19, "C01": C01, "C02": C02, "C03": C03, "C04": C04, "C05": C05, "C06": C06, "C07": C07, "C08": C08, "C09": C09, "C10": C10, "C11": C11, "C12": C12, "C13": C13, "C14": C14, "C15": C15, "C16": C16, "C17": C17, "C18": C18, "C20": C20}
 
 NOT_CLAIMED = {}
